@@ -1,4 +1,10 @@
-"""Case generator for the CPC sketch family (C05; later the CPC legs of C11/C12/C17/C18)."""
+"""Case generator for the CPC sketch family (C05; later the CPC legs of C11/C12/C17/C18).
+
+Every stream stays inside the documented domain of the sketch (DESIGN.md Appendix B.6):
+  * 8*C < 475*K, so that the window offset never exceeds 56;
+  * at most 24*K surprising values (PairTable::rebuild asserts lg_size + 1 <= lg_k + 6);
+  * rows < K, cols <= 63, never the code u32::MAX.
+The generator keeps its own exact bit matrix to enforce this (it is not used as an oracle)."""
 from common import Case
 import pyref
 
@@ -15,12 +21,282 @@ GEN_MODULES = [("GenCpc",
                 {"cpc/mod.rs": ["determine_flavor", "determine_correct_offset"],
                  "cpc/sketch.rs": ["update", "row_col_update", "update_hip", "update_sparse", "promote_sparse_to_windowed",
                                    "update_windowed", "move_window", "refresh_kxp", "build_bit_matrix"]})]
-OPNAMES = {0: "new", 1: "update", 2: "row_col", 3: "dump", 4: "validate", 5: "matrix", 6: "flavor_of", 7: "offset_of"}
+OPNAMES = {0: "new", 1: "update", 2: "row_col", 3: "dump", 4: "validate", 5: "matrix", 6: "flavor_of", 7: "offset_of",
+           8: "estimate"}
+U32MAX = 2**32 - 1
+
+
+def correct_offset(lgk, c):
+    k = 1 << lgk
+    return 0 if 8 * c < 19 * k else (8 * c - 19 * k) // (8 * k)
+
+
+class Sim:
+    """exact bit matrix + per-column counts, only to keep the stream inside the domain"""
+    def __init__(self, lgk):
+        self.lgk, self.k = lgk, 1 << lgk
+        self.rows = {}
+        self.cols = [0] * 64
+        self.c = 0
+
+    def has(self, rc):
+        return (self.rows.get(rc >> 6, 0) >> (rc & 63)) & 1
+
+    def surprises_after(self, rc):
+        """(C, number of surprising values) after adding rc"""
+        col = rc & 63
+        new = 0 if self.has(rc) else 1
+        c = self.c + new
+        if 32 * c < 3 * self.k:
+            return c, c
+        off = correct_offset(self.lgk, c)
+        n = 0
+        for j in range(64):
+            cj = self.cols[j] + (new if j == col else 0)
+            if j < off:
+                n += self.k - cj
+            elif j >= off + 8:
+                n += cj
+        return c, n
+
+    def ok(self, rc):
+        if rc == U32MAX or (rc >> 6) >= self.k:
+            return False
+        c, n = self.surprises_after(rc)
+        return 8 * c < 475 * self.k and n <= 24 * self.k and n <= 3 * (1 << 24)
+
+    def add(self, rc):
+        if not self.has(rc):
+            self.rows[rc >> 6] = self.rows.get(rc >> 6, 0) | (1 << (rc & 63))
+            self.cols[rc & 63] += 1
+            self.c += 1
+
+    def offset(self):
+        return correct_offset(self.lgk, self.c)
+
+
+def pair_of_item(item, seed, lgk):
+    h1, h2 = pyref.murmur3_x64_128(pyref.le8(item), seed)
+    col = min(63, 64 - h2.bit_length())
+    rc = ((h1 & ((1 << lgk) - 1)) << 6) | col
+    if rc == U32MAX:
+        rc ^= 1 << 6
+    return h1, h2, rc
+
+
+class Builder:
+    def __init__(self, rng, lgk, seed, dump_budget):
+        self.rng, self.lgk, self.seed = rng, lgk, seed
+        self.sim = Sim(lgk)
+        self.ops = [(0, [])]
+        self.dump_budget = dump_budget      # how many full observations may still be emitted
+        self.last_off = 0
+        self.last_windowed = False
+        # rough cost of replaying the case on the extracted model (list-based table and window):
+        # every update walks the table and half of the window
+        self.cost = 0
+        self.cost_budget = 30_000_000
+
+    def charge(self, rc):
+        c, n = self.sim.surprises_after(rc)
+        self.cost += n + (self.sim.k // 2 if 32 * c >= 3 * self.sim.k else 0)
+        return self.cost <= self.cost_budget
+
+    def observe(self, full=True):
+        if self.dump_budget <= 0:
+            return
+        self.dump_budget -= 1
+        self.ops.append((3, []))
+        if self.lgk <= 13:
+            self.ops.append((4, []))
+            if full:
+                self.ops.append((5, []))
+        self.ops.append((8, []))
+
+    def after(self):
+        off = self.sim.offset()
+        win = 32 * self.sim.c >= 3 * self.sim.k
+        if off != self.last_off or win != self.last_windowed:
+            self.last_off, self.last_windowed = off, win
+            self.observe()
+        elif self.rng.random() < 0.002:
+            self.observe()
+
+    def rc(self, rc):
+        if not self.sim.ok(rc) or not self.charge(rc):
+            return False
+        self.sim.add(rc)
+        self.ops.append((2, [rc]))
+        self.after()
+        return True
+
+    def item(self, item):
+        h1, h2, rc = pair_of_item(item, self.seed, self.lgk)
+        if not self.sim.ok(rc) or not self.charge(rc):
+            return False
+        self.sim.add(rc)
+        self.ops.append((1, [item, h1, h2]))
+        self.after()
+        return True
+
+
+def geometric_col(rng, boost):
+    """column with P(col = j) ~ 2^-(j+1), optionally boosted towards the far right"""
+    if rng.random() < boost:
+        return rng.randint(0, 63)
+    c = 0
+    while c < 63 and rng.random() < 0.5:
+        c += 1
+    return c
+
+
+def stream_colfill(b, rng, max_off, holes, far_ones):
+    """fill column by column; leave [holes] zeros per column (surprising zeros once the window has passed)
+    and sprinkle ones far to the right; later plug some of the holes (early-zone deletes)"""
+    k = b.sim.k
+    pending = []
+    for col in range(0, 64):
+        rows = list(range(k))
+        rng.shuffle(rows)
+        skip = set(rows[:rng.randint(0, holes)]) if holes else set()
+        for r in rows:
+            if b.sim.offset() >= max_off:
+                break
+            if r in skip:
+                pending.append((r << 6) | col)
+                continue
+            b.rc((r << 6) | col)
+            if far_ones and rng.random() < far_ones:
+                b.rc((rng.randrange(k) << 6) | rng.randint(min(63, col + 8), 63))
+            if rng.random() < 0.05:
+                b.rc((rng.randrange(k) << 6) | rng.randint(0, 63))          # duplicates / window hits / anything
+            if pending and rng.random() < 0.03:
+                b.rc(pending.pop(rng.randrange(len(pending))))              # plug a hole (maybe in the early zone)
+        if b.sim.offset() >= max_off:
+            break
+    rng.shuffle(pending)
+    for rc in pending[:len(pending) // 2]:
+        b.rc(rc)
+
+
+def stream_random(b, rng, n, boost):
+    k = b.sim.k
+    for _ in range(n):
+        b.rc((rng.randrange(k) << 6) | geometric_col(rng, boost))
+
+
+def stream_hashed(b, rng, n):
+    base = rng.choice([0, 1, -5, rng.getrandbits(64) - 2**63, 2**63 - 1 - n])
+    for i in range(n):
+        b.item(base + i if rng.random() < 0.9 else rng.getrandbits(64) - 2**63)
+
+
+def stream_right_to_left(b, rng, ncols):
+    """columns from the far right: every coupon is a surprising one, the early zone is all surprising zeros"""
+    k = b.sim.k
+    for col in range(63, 63 - ncols, -1):
+        rows = list(range(k))
+        rng.shuffle(rows)
+        for r in rows:
+            b.rc((r << 6) | col)
+
+
+def probes(lgk):
+    k = 1 << lgk
+    cs = {0, 1, 2}
+    for t in (3 * k // 32, k // 2, 27 * k // 8):
+        cs |= {max(0, t - 1), t, t + 1}
+    for w in range(0, 58):
+        t = (19 + 8 * w) * k // 8
+        cs |= {max(0, t - 1), t, t + 1}
+    return sorted(c for c in cs if c < 2**32)
+
+
+def gen_case(rng, cid, tier, kind, lgk):
+    seed = rng.choice([9001, 9001, 1, 12345, rng.getrandbits(64)])
+    if pyref.seed_hash(seed) == 0:
+        seed = 9001
+    k = 1 << lgk
+    b = Builder(rng, lgk, seed, dump_budget=(70 if lgk <= 6 else 24 if lgk <= 9 else 6))
+    if tier != "quick":
+        b.cost_budget *= 5
+    if kind == "colfill":
+        max_off = 57 if lgk <= 6 else (20 if lgk <= 8 else (6 if lgk <= 10 else 2))
+        stream_hashed(b, rng, rng.choice([0, 3, k // 8]))
+        stream_colfill(b, rng, max_off, holes=rng.choice([0, 1, 3, max(1, k // 8)]), far_ones=rng.choice([0, 0.02, 0.1]))
+    elif kind == "random":
+        n = rng.choice([k // 4, k, 4 * k, 8 * k]) if lgk <= 9 else rng.choice([k // 4, k, 3 * k])
+        stream_random(b, rng, n, boost=rng.choice([0.0, 0.05, 0.3]))
+    elif kind == "hashed":
+        n = rng.choice([1, k // 16, k // 2, 2 * k, 5 * k]) if lgk <= 10 else rng.choice([k // 16, k // 2, 2 * k])
+        stream_hashed(b, rng, max(1, n))
+    elif kind == "rtl":
+        stream_right_to_left(b, rng, rng.choice([1, 3, 12, 24]))
+        stream_random(b, rng, k, boost=0.2)
+    elif kind == "sparse_big":          # lg_k 21 / 26: sparse flavor only (the model's lists are K long otherwise)
+        n = rng.choice([50, 400, 1500])
+        for _ in range(n):
+            r = rng.random()
+            if r < 0.5:
+                b.item(rng.getrandbits(64) - 2**63)
+            elif r < 0.9:
+                b.rc((rng.choice([0, 1, k - 1, k - 2, rng.randrange(k)]) << 6) | geometric_col(rng, 0.3))
+            else:
+                b.rc((rng.choice([k - 1, k - 2]) << 6) | rng.choice([62, 63, 63]))
+    b.dump_budget = max(b.dump_budget, 1)
+    b.observe()
+    ops = b.ops
+    # dense threshold probes of the pure functions
+    for l in ([lgk] + [rng.randint(4, 26)]):
+        for c in rng.sample(probes(l), 12):
+            ops.append((6, [l, c]))
+            ops.append((7, [l, c]))
+    return Case(cid, [lgk, seed], ops, tag="cpc-%s-lg%d" % (kind, lgk))
+
+
+def plan(tier):
+    """(kind, lg_k) list"""
+    p = []
+    if tier == "quick":
+        for lgk in (4, 4, 5, 5, 6, 7, 8):
+            p.append(("colfill", lgk))
+        p += [("colfill", 9), ("colfill", 10), ("colfill", 11), ("colfill", 12)]
+        for lgk in range(4, 13):
+            p.append(("random", lgk))
+            p.append(("hashed", lgk))
+        for lgk in (4, 5, 6, 7, 8, 10):
+            p.append(("rtl", lgk))
+        p += [("random", 4), ("random", 5), ("hashed", 4), ("hashed", 6)]
+    else:
+        for rep in range(6):
+            for lgk in (4, 4, 5, 5, 6, 6, 7, 8):
+                p.append(("colfill", lgk))
+        for rep in range(2):
+            p += [("colfill", 9), ("colfill", 10), ("colfill", 11), ("colfill", 12)]
+        for rep in range(4):
+            for lgk in range(4, 13):
+                p.append(("random", lgk))
+                p.append(("hashed", lgk))
+                p.append(("rtl", lgk))
+        for lgk in (13, 14, 16):
+            p.append(("hashed", lgk))
+        for rep in range(4):
+            p += [("sparse_big", 21), ("sparse_big", 26)]
+    return p
 
 
 def gen(rng, tier, n=None, focus=None):
-    return []
+    p = plan(tier)
+    if n is not None and n < len(p):
+        rng.shuffle(p)
+        p = p[:n]
+    elif n is not None:
+        while len(p) < n:
+            p.append((rng.choice(["colfill", "random", "hashed", "rtl"]), rng.randint(4, 9)))
+    return [gen_case(rng, i, tier, kind, lgk) for i, (kind, lgk) in enumerate(p)]
 
 
 def nontrivial(case, obs):
-    return True
+    """at least two distinct pairs were offered and the state was observed at least once"""
+    pairs = {tuple(a[-2:]) for (c, a) in case.ops if c in (1, 2)}
+    return len(pairs) >= 2 and any(c in (3, 5) for (c, a) in case.ops)
